@@ -7,6 +7,7 @@ import (
 	"strconv"
 	"strings"
 	"time"
+	"unicode/utf8"
 
 	"evylang.dev/evy/pkg/parser"
 )
@@ -332,7 +333,12 @@ var indexDecl = &parser.FuncDefStmt{
 func indexFunc(_ *scope, args []value) (value, error) {
 	s := args[0].(*stringVal).V
 	substr := args[1].(*stringVal).V
-	return &numVal{V: float64(strings.Index(s, substr))}, nil
+	idx := strings.Index(s, substr)
+	if idx < 0 {
+		return &numVal{V: -1}, nil
+	}
+	// strings.Index returns a byte offset, Evy strings are indexed by character.
+	return &numVal{V: float64(utf8.RuneCountInString(s[:idx]))}, nil
 }
 
 var startswithDecl = &parser.FuncDefStmt{
